@@ -442,7 +442,24 @@ def crashes(pid, tier, replay):
         return engine.engine_replay(pid, replay)
     fams = _fams([dict(fam="crash", K=2, CH=2), dict(fam="intr", K=3, CH=2)],
                  [dict(fam="crash", K=12, CH=6), dict(fam="intr", K=12, CH=6)], tier)
-    return engine.engine_check(pid, fams, tier, maxruns=12 if tier == "quick" else 100, level="fault_enumeration")
+
+    def real_signals(s):
+        # real processes: SIGINT/SIGTERM/SIGHUP to ninja at the w-th wait, commands that flush a partial result while
+        # handling the signal (direct children), and SIGKILL of ninja with orphaned commands finishing or not
+        n = sum(ord(c) for c in s["id"])
+        for st in s["stmts"]:
+            if not st["phony"]:
+                st["trap"] = n % 2 == 0
+        for k, step in enumerate(s["hist"]):
+            if step.get("intr", -1) > 0:
+                if n % 3 == 0:
+                    step["kill"] = step.pop("intr")
+                else:
+                    step["signal"] = ["INT", "TERM", "HUP"][(n + k) % 3]
+                step.pop("tok", None)
+        return s
+    h2 = dict(fams=[dict(fam="intr", K=2, CH=2, mut=real_signals)], limit=100 if tier == "quick" else 1200, maxruns=3)
+    return engine.engine_check(pid, fams, tier, maxruns=12 if tier == "quick" else 100, level="fault_enumeration", h2=h2)
 
 
 @reg("C10")
